@@ -124,6 +124,7 @@ def subst(tpl, env):
     {'$probes': tree} -> nested dict of new probe objects
     {'$lit': x}       -> x unchanged
     {'$state': path}  -> the value the probe read at that path of states
+    {'$stateref': path} -> the very object found there (no copy)
     """
     if isinstance(tpl, str):
         if tpl == '$tok':
@@ -150,6 +151,11 @@ def subst(tpl, env):
             return build_tree(tpl['$probes'])
         if '$lit' in tpl:
             return copy.deepcopy(tpl['$lit'])
+        if '$stateref' in tpl:
+            v = env.states
+            for k in tpl['$stateref']:
+                v = v[k]
+            return v
         if '$state' in tpl:
             v = env.states
             for k in tpl['$state']:
@@ -237,6 +243,9 @@ class _ProbeMixin:
             res = ORACLE.choose(('cond', self.pid, k), [True, False], self)
         elif cond == 'path':
             res = super().update_condition(timestep, states)
+        elif isinstance(cond, dict) and '$min_ts' in cond:
+            # a condition that depends on the timestep argument
+            res = timestep >= cond['$min_ts']
         elif isinstance(cond, dict):
             by = cond['$n']
             res = by.get(k, by.get(str(k), cond.get('$else', True)))
@@ -251,7 +260,8 @@ class _ProbeMixin:
         n = self.n
         self.n += 1
         if self.parameters['log_snapshot']:
-            log('snap', self.uid, self.pid, n, now(), snapshot())
+            log('snap', self.uid, self.pid, n, now(), snapshot(),
+                uid_paths().get(self.uid))
         log('invoke', self.uid, self.pid, n, now(), timestep,
             copy.deepcopy(states), self.is_step())
         if self.parameters['raise_at'] is not None and \
